@@ -37,6 +37,19 @@ WORKSHEET_ORDER = [
 ]
 ORDER_INDEX = {n: i for i, n in enumerate(WORKSHEET_ORDER)}
 
+# element -> acceptable relationship type suffixes
+REL_KIND = {
+    "tablePart": ("table",),
+    "drawing": ("drawing",),
+    "legacyDrawing": ("vmlDrawing",),
+    "legacyDrawingHF": ("vmlDrawing",),
+    "hyperlink": ("hyperlink",),
+    "pageSetup": ("printerSettings",),
+    "picture": ("image",),
+    "oleObject": ("oleObject", "package"),
+    "control": ("control", "ctrlProp"),
+}
+
 CELL_RE = re.compile(r"^([A-Z]{1,3})([0-9]{1,7})$")
 
 
@@ -246,11 +259,16 @@ def validate(data):
             if i == last and local(c.tag) not in ("conditionalFormatting",):
                 errors.append("%s: <%s> occurs twice" % (part, local(c.tag)))
             last = max(last, i)
-        # r:id anywhere in the sheet
+        # r:id anywhere in the sheet: must resolve, and to a relationship of the kind the element needs
         for el in tree.iter():
             rid2 = el.get("{%s}id" % NS_REL)
             if rid2 is not None and rid2 not in srels:
                 errors.append("%s: <%s> r:id %s not in sheet rels" % (part, local(el.tag), rid2))
+            elif rid2 is not None:
+                want = REL_KIND.get(local(el.tag))
+                got = srels[rid2][0].rsplit("/", 1)[-1]
+                if want is not None and got not in want:
+                    errors.append("%s: <%s> r:id %s resolves to a relationship of type %s" % (part, local(el.tag), rid2, got))
             dxf = el.get("dxfId")
             if dxf is not None and local(el.tag) == "cfRule":
                 if not dxf.isdigit() or int(dxf) >= n_dxfs:
